@@ -60,6 +60,13 @@ type cfgSpec struct {
 	Refused bool      `json:"reload_refused,omitempty"`
 	// Lean: this world runs the quick-tier table (spellings, methods, credential classes) also in the thorough tier.
 	Lean bool `json:"quick_size_table,omitempty"`
+	// Chain (chain_test.go): the application is booted and reloaded along that history; the four lists above are
+	// then the token VALUES in force after its last step according to the reference (filled in by the first boot
+	// of the world, like Refused). Stale: every other token of the history and why it is not in force. Declared:
+	// lists in force that declare a member without a resolvable value.
+	Chain    *chainSpec        `json:"reload_chain,omitempty"`
+	Stale    map[string]string `json:"tokens_not_in_force,omitempty"`
+	Declared []string          `json:"lists_declaring_unresolvable_members,omitempty"`
 }
 
 func (c cfgSpec) label() string {
@@ -69,6 +76,9 @@ func (c cfgSpec) label() string {
 	}
 	if c.Refused {
 		hist += "/reload-was-refused"
+	}
+	if c.Chain != nil {
+		hist = "/" + c.Chain.id() + map[bool]string{true: " outcome " + c.Chain.shape() + " in force:"}[len(c.Chain.Applied) > 0]
 	}
 	return fmt.Sprintf("%s/%s/%s%s g=%v a=%v b=%v%s adm=%v", c.Alpha, c.Deploy, c.Src, hist, c.Global, c.A, c.B,
 		func() string {
@@ -96,6 +106,9 @@ func (c cfgSpec) adminPrefix() string {
 // complete is the property's side condition written from its text: every pull
 // route has its own tokens or there are global ones.
 func (c cfgSpec) complete() bool {
+	if c.Chain != nil { // every Hookaidofile of a chain world has a global list
+		return true
+	}
 	if len(c.Global) > 0 {
 		return true
 	}
@@ -126,6 +139,9 @@ func nextAddrs() addrs {
 // the tokens over env: and file: references (file content gets a trailing
 // newline, as an editor would leave it).
 func tokenRef(c cfgSpec, dir string, tok string, n int) string {
+	if c.Src == "ref" { // the list already holds references (chain_test.go)
+		return tok
+	}
 	if c.Src != "envfile" {
 		return "raw:" + tok
 	}
@@ -250,6 +266,12 @@ func (w *world) fresh() error {
 	w.trail = w.trail[:0]
 	w.store = queue.NewMemoryStore(queue.WithNowFunc(func() time.Time { return fixedNow }))
 	w.ad = nextAddrs()
+	if w.spec.Chain != nil {
+		if err := w.bootChain(); err != nil {
+			return err
+		}
+		return w.connectAndSeed()
+	}
 	w.text = dsl(w.spec, w.ad, filepath.Join(w.dir, "tok"))
 	bootText := w.text
 	from := w.spec.from()
@@ -274,6 +296,12 @@ func (w *world) fresh() error {
 			return fmt.Errorf("reload to %s: applied=%v differs from the recorded outcome", w.spec.label(), applied)
 		}
 	}
+	return w.connectAndSeed()
+}
+
+// connectAndSeed: gRPC client to the booted application, seeded store, base dump.
+func (w *world) connectAndSeed() error {
+	a := w.app
 	if a.Pull == nil || a.Admin == nil {
 		return fmt.Errorf("boot %s: pull/admin handler missing", w.spec.label())
 	}
